@@ -14,6 +14,7 @@ import Proofs.PostProcessDests
 import Proofs.PostProcessContent
 import Proofs.PostProcessAlias
 import Proofs.PostProcessMapped
+import Proofs.PostProcessChecked
 import Gen.Facts
 
 namespace Props.C13
@@ -268,6 +269,56 @@ example : Clean ["ps"] ["ps", "outs"] exFS
   · intro l hm
     rw [List.mem_singleton.mp hm]
     decide
+
+/-- The side conditions of `content_preserved` (`apart`, `nonnest`, `status`,
+`free`) as ONE decidable check: `cleanB` is sound for `Clean`.  The driver
+evaluates `wfParams` and `cleanB` on every real input of the direct stream; the
+harness counts how often they held and raises a correspondence violation when
+they fail on a run whose leaves are all missing or regular files/directories
+inside the pipestance (the runs the manifest says the global theorem covers). -/
+theorem clean_check_sound (ps top : Path) (fs : FS) (params : List (String × String × Ty))
+    (outs : List (String × J)) (hwf : wfParams params = true)
+    (h : cleanB ps top fs (leavesRec params outs top) = true) :
+    Clean ps top fs (leavesRec params outs top) := cleanB_sound ps top fs params outs hwf h
+
+/-- non-vacuity of GLOBAL `content_preserved` on a record with struct + multi-dimensional array +
+typed map, six leaves, a directory output and a missing file: the signature is well formed and
+ALL side conditions (`Clean`: pairwise non-nested sources, apart from outs/, status, free
+destinations) hold, by evaluation of the decidable check. -/
+example : wfParams exSig3 = true ∧
+    cleanB ["ps"] ["ps", "outs"] exFS3 (leavesRec exSig3 exOuts3 ["ps", "outs"]) = true ∧
+    (leavesRec exSig3 exOuts3 ["ps", "outs"]).length = 6 := by decide
+
+example : Clean ["ps"] ["ps", "outs"] exFS3 (leavesRec exSig3 exOuts3 ["ps", "outs"]) :=
+  clean_check_sound _ _ _ _ _ (by decide) (by decide)
+
+/-- … and the theorem instantiated on it: after `processStructOuts` of the whole record the file
+INSIDE the directory output `r[0][0]` is at `outs/r/0/0/inner`, and the map entry `m.k1[0]` is at
+`outs/m/k1/0.bam`, with the contents the stage wrote. -/
+example :
+    (processStructOuts Gen.postProcessDimAware ["ps"] exSig3 (.obj exOuts3) ["ps", "outs"] exFS3).2.get
+      ["ps", "outs", "r", "0", "0", "inner"] = some (.file 3) ∧
+    (processStructOuts Gen.postProcessDimAware ["ps"] exSig3 (.obj exOuts3) ["ps", "outs"] exFS3).2.get
+      ["ps", "outs", "m", "k1", "0.bam"] = some (.file 5) := by
+  have hc := clean_check_sound ["ps"] ["ps", "outs"] exFS3 exSig3 exOuts3 (by decide) (by decide)
+  have hl : leavesRec exSig3 exOuts3 ["ps", "outs"] =
+      [⟨.str "/ps/MK/files/sf", ["ps", "outs", "s"], "f.txt"⟩, ⟨.str "/ps/MK/files/sg", ["ps", "outs", "s"], "out.bin"⟩,
+       ⟨.str "/ps/MK/files/d", ["ps", "outs", "r", "0"], "0"⟩, ⟨.str "/ps/MK/files/nope", ["ps", "outs", "r", "0"], "1"⟩,
+       ⟨.str "/ps/MK/files/r11", ["ps", "outs", "r", "1"], "1"⟩,
+       ⟨.str "/ps/MK/files/m0", ["ps", "outs", "m", "k1"], "0.bam"⟩] := by rfl
+  constructor
+  · have := content_preserved ["ps"] ["ps", "outs"] exFS3 exSig3 exOuts3 (by decide) hc.apart hc.nonnest
+      hc.status hc.free ⟨.str "/ps/MK/files/d", ["ps", "outs", "r", "0"], "0"⟩ (by rw [hl]; simp)
+      ["ps", "MK", "files", "d"] .dir (by decide) (by decide) ["inner"]
+    have h3 : exFS3.get ["ps", "MK", "files", "d", "inner"] = some (.file 3) := by decide
+    rw [← h3]
+    simpa [Leaf.dest] using this
+  · have := content_preserved ["ps"] ["ps", "outs"] exFS3 exSig3 exOuts3 (by decide) hc.apart hc.nonnest
+      hc.status hc.free ⟨.str "/ps/MK/files/m0", ["ps", "outs", "m", "k1"], "0.bam"⟩ (by rw [hl]; simp)
+      ["ps", "MK", "files", "m0"] (.file 5) (by decide) (by decide) []
+    have h5 : exFS3.get ["ps", "MK", "files", "m0"] = some (.file 5) := by decide
+    rw [← h5]
+    simpa [Leaf.dest] using this
 
 /-- Negative witness (known finding `C13:overlapping-outputs`, in the model):
 a directory output `d` and a file output `f` naming `d/inner`.  The sources are
